@@ -172,3 +172,131 @@ Proof.
   unfold skip_val. destruct (tk_fc t) as [|f0 fr] eqn:Ef; [contradiction|]. destruct (tk_pan t) as [|p0 pr] eqn:Ep; [contradiction|].
   rewrite Hfeq, Hpeq, Hdeq. cbn [trim drop_while drop_while_end frev negb andb]. reflexivity.
 Qed.
+
+(* ---- Track1 ---- *)
+Lemma digits_or_caret_digits n d rest : length d = n -> forallb is_digit d = true -> digits_or_caret n (d ++ rest) = Some (d, rest).
+Proof.
+  intros Hl Hd. unfold digits_or_caret. rewrite (firstn_exact d rest n Hl), (skipn_exact d rest n Hl), Hd.
+  replace ((n <=? length (d ++ rest))%nat) with true by (symmetry; apply Nat.leb_le; rewrite app_length; lia). reflexivity.
+Qed.
+Lemma digits_or_caret_caret n rest : (0 < n)%nat -> digits_or_caret n (caret ++ rest) = Some (caret, rest).
+Proof.
+  intros Hn. unfold digits_or_caret, caret. cbn [app]. destruct n as [|n']; [lia|]. cbn [firstn forallb]. change (is_digit x5e) with false. cbn [andb].
+  rewrite Bool.andb_false_r. reflexivity.
+Qed.
+
+Definition t1_dom (t : tstate) : Prop :=
+  tk_fixed t = false /\
+  (exists c, tk_fc t = [c] /\ is_upper c = true) /\
+  forallb is_digit (tk_pan t) = true /\ (1 <= length (tk_pan t) <= 19)%nat /\
+  ((2 <= length (tk_name t) <= 26)%nat /\ forallb (fun b => negb (Byte.eqb b x5e)) (tk_name t) = true /\ no_edge_space (tk_name t)) /\
+  (match tk_exp t with Some e => length e = 4%nat /\ forallb is_digit e = true /\ valid_yymm e = true | None => True end) /\
+  (tk_svc t = [] \/ (length (tk_svc t) = 3%nat /\ forallb is_digit (tk_svc t) = true)) /\
+  (tk_dd t <> [] /\ no_qmark (tk_dd t) = true /\ no_edge_space (tk_dd t) /\ tk_dd t <> caret) /\
+  tk_sep t = [].
+
+Lemma keep_digits k d : d <> [] -> forallb is_digit d = true -> (if skip_val k (trim d) then [] else trim d) = d.
+Proof.
+  intros Hne Hd. rewrite (trim_id d) by (apply digits_no_edge; exact Hd). unfold skip_val. destruct d as [|a r] eqn:E; [contradiction|].
+  cbn [forallb] in Hd. apply Bool.andb_true_iff in Hd. destruct Hd as (Ha & _).
+  destruct k; try reflexivity.
+  - unfold caret. cbn [bytes_eqb]. destruct (Byte.eqb a x5e) eqn:Ea; [apply byte_eqb_eq in Ea; subst; discriminate|reflexivity].
+  - unfold eqsign. cbn [bytes_eqb]. destruct (Byte.eqb a x3d) eqn:Ea; [apply byte_eqb_eq in Ea; subst; discriminate|reflexivity].
+Qed.
+
+Theorem track1_parse_render t t0 : t1_dom t ->
+  t_parse T1 t0 (t_render T1 t) =
+  ({| tk_fixed := tk_fixed t0; tk_fc := tk_fc t; tk_pan := tk_pan t; tk_sep := []; tk_name := tk_name t; tk_exp := tk_exp t; tk_svc := tk_svc t; tk_dd := tk_dd t |}, Ok tt).
+Proof.
+  intros (Hfx & (c & Hfc & Hup) & Hpan & Hplen & (Hnl & Hnc & Hne) & Hexp & Hsvc & (Hddne & Hddq & Hdde & Hddc) & _).
+  unfold t_parse, t_render. rewrite Hfx, Bool.andb_false_r, Hfc. cbn [app].
+  set (expr := match tk_exp t with Some e => e | None => caret end).
+  set (svcr := match tk_svc t with [] => caret | s => s end).
+  unfold t_match. rewrite Hup. cbn [negb].
+  rewrite (take_while_app is_digit (tk_pan t) (caret ++ tk_name t ++ caret ++ expr ++ svcr ++ tk_dd t) Hpan) by reflexivity.
+  replace ((length (tk_pan t) =? 0)%nat || (19 <? length (tk_pan t))%nat) with false
+    by (symmetry; apply Bool.orb_false_iff; split; [apply Nat.eqb_neq; lia|apply Nat.ltb_ge; lia]).
+  unfold caret at 1. cbn [app]. change (Byte.eqb x5e x5e) with true. cbn [negb].
+  rewrite (take_while_app (fun b => negb (Byte.eqb b x5e)) (tk_name t) (caret ++ expr ++ svcr ++ tk_dd t) Hnc) by reflexivity.
+  replace ((length (tk_name t) <? 2)%nat || (26 <? length (tk_name t))%nat) with false
+    by (symmetry; apply Bool.orb_false_iff; split; apply Nat.ltb_ge; lia).
+  unfold caret at 1. cbn [app].
+  assert (He4 : digits_or_caret 4 (expr ++ svcr ++ tk_dd t) = Some (expr, svcr ++ tk_dd t)).
+  { unfold expr. destruct (tk_exp t) as [e|]; [destruct Hexp as (Hl & Hd & _); apply digits_or_caret_digits; assumption|apply digits_or_caret_caret; lia]. }
+  rewrite He4.
+  assert (Hs3 : digits_or_caret 3 (svcr ++ tk_dd t) = Some (svcr, tk_dd t)).
+  { unfold svcr. destruct Hsvc as [->|(Hl & Hd)]; [apply digits_or_caret_caret; lia|]. destruct (tk_svc t) as [|s0 sr] eqn:Es; [discriminate|]. apply digits_or_caret_digits; assumption. }
+  rewrite Hs3. unfold dd_ok. destruct (tk_dd t) as [|d0 dr] eqn:Edd; [contradiction|]. rewrite Hddq.
+  cbn [mt_fc mt_pan mt_sep mt_name mt_exp mt_svc mt_dd].
+  (* the components *)
+  assert (Kfc : (if skip_val T1 (trim [c]) then [] else trim [c]) = [c]).
+  { assert (Hns : is_space_ascii c = false).
+    { assert (G : forallb (fun b => implb (is_upper b) (negb (is_space_ascii b))) all_bytes = true) by (vm_compute; reflexivity).
+      pose proof (forall_bytes _ G c) as Hb. cbn beta in Hb. rewrite Hup in Hb. cbn [implb] in Hb. destruct (is_space_ascii c); [discriminate|reflexivity]. }
+    rewrite (trim_id [c]) by (split; exact Hns). unfold skip_val, caret. cbn [bytes_eqb].
+    destruct (Byte.eqb c x5e) eqn:Ec; [apply byte_eqb_eq in Ec; subst; discriminate|reflexivity]. }
+  assert (Kpan : (if skip_val T1 (trim (tk_pan t)) then [] else trim (tk_pan t)) = tk_pan t)
+    by (apply keep_digits; [intros E; rewrite E in Hplen; cbn in Hplen; lia|exact Hpan]).
+  assert (Kname : (if skip_val T1 (trim (tk_name t)) then [] else trim (tk_name t)) = tk_name t).
+  { rewrite (trim_id _ Hne). unfold skip_val. destruct (tk_name t) as [|a [|b2 r]] eqn:En; cbn [length] in Hnl; try lia.
+    unfold caret. cbn [bytes_eqb]. rewrite Bool.andb_false_r. reflexivity. }
+  assert (Kdd : (if skip_val T1 (trim (d0 :: dr)) then [] else trim (d0 :: dr)) = d0 :: dr).
+  { rewrite (trim_id _ Hdde). unfold skip_val. replace (bytes_eqb (d0 :: dr) caret) with false by (symmetry; apply CompositeLoops.bytes_eqb_neq; exact Hddc). reflexivity. }
+  assert (Ksep : (if skip_val T1 (trim []) then [] else trim []) = []) by reflexivity.
+  rewrite Kfc, Kpan, Kname, Kdd, Ksep.
+  (* expiry and service code *)
+  assert (Hexpr : (negb (skip_val T1 (trim expr)) && negb (valid_yymm (trim expr))) = false /\
+                  (if skip_val T1 (trim expr) then None else Some (trim expr)) = tk_exp t).
+  { unfold expr. destruct (tk_exp t) as [e|].
+    - destruct Hexp as (Hl & Hd & Hv). rewrite (trim_id e) by (apply digits_no_edge; exact Hd). rewrite Hv.
+      assert (Hsk : skip_val T1 e = false).
+      { unfold skip_val. destruct e as [|a r] eqn:E; [discriminate|]. cbn [forallb] in Hd. apply Bool.andb_true_iff in Hd. destruct Hd as (Ha & _).
+        unfold caret. cbn [bytes_eqb]. destruct (Byte.eqb a x5e) eqn:Ea; [apply byte_eqb_eq in Ea; subst; discriminate|reflexivity]. }
+      rewrite Hsk. split; reflexivity.
+    - split; reflexivity. }
+  destruct Hexpr as (Hx1 & Hx2). rewrite Hx1, Hx2.
+  assert (Ksvc : (if skip_val T1 (trim svcr) then [] else trim svcr) = tk_svc t).
+  { unfold svcr. destruct Hsvc as [->|(Hl & Hd)]; [reflexivity|]. destruct (tk_svc t) as [|s0 sr] eqn:Es; [discriminate|]. apply keep_digits; [discriminate|exact Hd]. }
+  rewrite Ksvc. rewrite <- Hfc. reflexivity.
+Qed.
+
+(* ---- the Describe filters of Track1 and Track3 ---- *)
+(* a packable track whose rendering parses back: the filter shows the rendering of the parsed components with the
+   PAN masked *)
+Lemma t_filter_parsed k p t b inp tr : coherent_pspec p ->
+  pad_ok (ps_pad p) (t_render k t) = true -> enc_dom (ps_enc p) (pad (ps_pad p) (t_render k t) (ps_len p)) = true ->
+  zlen (pad (ps_pad p) (t_render k t) (ps_len p)) <= max_int ->
+  t_pack k p t = Ok b -> t_render k t <> [] -> t_parse k t_empty (t_render k t) = (tr, Ok tt) ->
+  t_filter k p inp t = t_render k {| tk_fixed := tk_fixed tr; tk_fc := tk_fc tr; tk_pan := pan_filter (tk_pan tr); tk_sep := tk_sep tr;
+                                      tk_name := tk_name tr; tk_exp := tk_exp tr; tk_svc := tk_svc tr; tk_dd := tk_dd tr |}.
+Proof.
+  intros Hc Hpad Hdom Hmax Hp Hne Hparse. unfold t_filter. rewrite Hp. unfold t_pack in Hp.
+  pose proof (raw_roundtrip p (t_render k t) b [] Hc Hpad Hdom Hmax Hp) as Hr. rewrite app_nil_r in Hr.
+  unfold t_unpack. rewrite Hr. destruct (t_render k t) as [|r0 rr] eqn:Er; [contradiction|]. rewrite Hparse. reflexivity.
+Qed.
+
+Theorem track3_filter_masks p t b inp : coherent_pspec p -> t3_dom t ->
+  pad_ok (ps_pad p) (t_render T3 t) = true -> enc_dom (ps_enc p) (pad (ps_pad p) (t_render T3 t) (ps_len p)) = true ->
+  zlen (pad (ps_pad p) (t_render T3 t) (ps_len p)) <= max_int ->
+  t_pack T3 p t = Ok b ->
+  t_filter T3 p inp t = tk_fc t ++ pan_filter (tk_pan t) ++ eqsign ++ tk_dd t.
+Proof.
+  intros Hc Hd Hpad Hdom Hmax Hp.
+  assert (Hne : t_render T3 t <> []).
+  { destruct Hd as ((Hfl & _) & _). unfold t_render. destruct (tk_fc t); [discriminate|discriminate]. }
+  rewrite (t_filter_parsed T3 p t b inp _ Hc Hpad Hdom Hmax Hp Hne (track3_parse_render t t_empty Hd)). reflexivity.
+Qed.
+
+Theorem track1_filter_masks p t b inp : coherent_pspec p -> t1_dom t ->
+  pad_ok (ps_pad p) (t_render T1 t) = true -> enc_dom (ps_enc p) (pad (ps_pad p) (t_render T1 t) (ps_len p)) = true ->
+  zlen (pad (ps_pad p) (t_render T1 t) (ps_len p)) <= max_int ->
+  t_pack T1 p t = Ok b ->
+  t_filter T1 p inp t = tk_fc t ++ pan_filter (tk_pan t) ++ caret ++ tk_name t ++ caret ++
+                        (match tk_exp t with Some e => e | None => caret end) ++ (match tk_svc t with [] => caret | s => s end) ++ tk_dd t.
+Proof.
+  intros Hc Hd Hpad Hdom Hmax Hp.
+  assert (Hne : t_render T1 t <> []).
+  { destruct Hd as (_ & (c & Hfc & _) & _). unfold t_render. rewrite Hfc. discriminate. }
+  rewrite (t_filter_parsed T1 p t b inp _ Hc Hpad Hdom Hmax Hp Hne (track1_parse_render t t_empty Hd)).
+  unfold t_render. cbn [tk_fixed tk_fc tk_pan tk_sep tk_name tk_exp tk_svc tk_dd t_empty]. rewrite Bool.andb_false_r. reflexivity.
+Qed.
